@@ -73,12 +73,19 @@ def build_gfa(nodes, links):
 
     if VIA_FILE["on"] and VIA_FILE["dir"]:
         # the same graph loaded from a GFA file whose L lines come before its S lines
+        # (every third file S lines first, gzip-compressed and without a newline after its last line)
+        text = "".join(f"L\t{a}\t{ao}\t{b}\t{bo}\t0M\n" for a, ao, b, bo in links)
+        stext = "".join(f"S\t{n}\t*\n" for n in reversed(list(nodes)))
+        if VIA_FILE["on"] == "gz":
+            import gzip
+
+            path = os.path.join(VIA_FILE["dir"], "viafile.gfa.gz")
+            with gzip.open(path, "wt") as f:
+                f.write((stext + text)[:-1])
+            return GFA(path)
         path = os.path.join(VIA_FILE["dir"], "viafile.gfa")
         with open(path, "w") as f:
-            for a, ao, b, bo in links:
-                f.write(f"L\t{a}\t{ao}\t{b}\t{bo}\t0M\n")
-            for n in reversed(list(nodes)):
-                f.write(f"S\t{n}\t*\n")
+            f.write(text + stext)
         return GFA(path)
     g = GFA()
     for n in nodes:
@@ -98,6 +105,9 @@ def model_adj(nodes, links):
 
 def check_decomposition(res, nodes, links, desc, oracle_cache=None):
     adj = model_adj(nodes, links)
+    if VIA_FILE["on"] is True:
+        VIA_FILE["n"] = VIA_FILE.get("n", 0) + 1
+        VIA_FILE["on"] = "gz" if VIA_FILE["n"] % 3 == 0 else "plain"
     case = {"nodes": list(nodes), "links": [list(l) for l in links], "via_file": VIA_FILE["on"]}
     G = build_gfa(nodes, links)
     # components
@@ -218,7 +228,7 @@ def graphs_part(res, spec, tier):
 # ----------------------------------------------------------------------------------------------
 # (b) explicit-state search over edit histories
 
-NAMES = ["a", "b", "c"]
+NAMES = ["a", "b", "2"]  # one numeric name: the library accepts non-string ids and converts them
 
 
 def adjacency_canon(G):
@@ -268,6 +278,10 @@ def ops_for(nodes):
     for n in NAMES:
         if n not in nodes:
             out.append(("add_node", n))
+        else:
+            out.append(("add_node", n))  # adding a node that exists is documented as a no-op (warning)
+        if n.isdigit():
+            out.append(("add_node_int", n))  # the same id passed as an int, present or not
     present = sorted(nodes)
     for a in present:
         for b in present:
@@ -321,6 +335,8 @@ def apply_real(G, op):
         return
     if op[0] == "add_node":
         G.add_node(op[1])
+    elif op[0] == "add_node_int":
+        G.add_node(int(op[1]))
     elif op[0] == "add_edge":
         G.add_edge(op[1], op[2], op[3], op[4], 0)
     else:
@@ -331,7 +347,7 @@ def apply_model(nodes, links, op):
     nodes, links = set(nodes), set(links)
     if op[0].startswith("obs_"):
         return frozenset(nodes), frozenset(links)
-    if op[0] == "add_node":
+    if op[0] in ("add_node", "add_node_int"):
         nodes.add(op[1])
     elif op[0] == "add_edge":
         links.add(rgfa.side_pair(op[1], op[2], op[3], op[4]))
@@ -343,8 +359,8 @@ def apply_model(nodes, links, op):
 
 SEEDS = {
     "empty": [],
-    "path": [("add_node", "a"), ("add_node", "b"), ("add_node", "c"), ("add_edge", "a", "+", "b", "+"), ("add_edge", "b", "+", "c", "-")],
-    "triangle": [("add_node", "a"), ("add_node", "b"), ("add_node", "c"), ("add_edge", "a", "+", "b", "+"), ("add_edge", "b", "+", "c", "+"), ("add_edge", "c", "+", "a", "+")],
+    "path": [("add_node", "a"), ("add_node", "b"), ("add_node", "2"), ("add_edge", "a", "+", "b", "+"), ("add_edge", "b", "+", "2", "-")],
+    "triangle": [("add_node", "a"), ("add_node", "b"), ("add_node", "2"), ("add_edge", "a", "+", "b", "+"), ("add_edge", "b", "+", "2", "+"), ("add_edge", "2", "+", "a", "+")],
     "selfloop": [("add_node", "a"), ("add_node", "b"), ("add_edge", "a", "+", "a", "+"), ("add_edge", "a", "+", "a", "-"), ("add_edge", "a", "-", "b", "+")],
     "parallel": [("add_node", "a"), ("add_node", "b"), ("add_edge", "a", "+", "b", "+"), ("add_edge", "a", "+", "b", "-"), ("add_edge", "a", "-", "b", "-")],
 }
@@ -438,7 +454,7 @@ def bfs_part(res, spec, tier):
     res.count("stale_edge_tag_entries_seen(info)", stale)
     res.count("bfs_max_depth_" + spec["seed"], maxd)
     res.sample({"seed": spec["seed"], "seed_history": [list(o) for o in SEEDS[spec["seed"]]], "depth": depth, "states": len(seen), "transitions": transitions,
-                "example_history": [list(o) for o in (SEEDS[spec["seed"]] + [("add_node", "c"), ("add_edge", "a", "+", "c", "-"), ("remove_node", "a")])[:8]]})
+                "example_history": [list(o) for o in (SEEDS[spec["seed"]] + [("add_node", "2"), ("add_edge", "a", "+", "2", "-"), ("remove_node", "a")])[:8]]})
 
 
 def run_shard(spec, tier, scratch):
@@ -483,7 +499,7 @@ def replay(case, scratch):
             if not invariants(res, G, nodes, links, hist, {}):
                 return res.failures
         return res.failures
-    VIA_FILE["dir"], VIA_FILE["on"] = scratch, bool(case.get("via_file"))
+    VIA_FILE["dir"], VIA_FILE["on"] = scratch, case.get("via_file") or False
     try:
         check_decomposition(res, case["nodes"], [tuple(l) for l in case["links"]], "replay")
     finally:
